@@ -12,6 +12,8 @@ from runner import ddmin
 import runner
 
 NAMES = ["m0", "m1", "m2", "m3", "m4", "m5", "m6", "m7", "m8", "m9"]
+# names one of which is a (case-insensitive) prefix of another: m < m1 < m1x < m1xy, m2 < M2z
+PREFIXY = ["m", "m1", "m1x", "m1xy", "m2", "M2z"]
 
 
 def has_cycle(nodes, deps):
@@ -48,6 +50,9 @@ class ModProfile:
     def gen_run(self, rnd, opts, tier, tag):
         n = rnd.randint(2, 6) if rnd.random() < 0.93 else rnd.randint(7, 10)
         nodes = NAMES[:n]
+        if rnd.random() < 0.2:
+            nodes = rnd.sample(PREFIXY, min(n, len(PREFIXY)))
+            n = len(nodes)
         order = nodes[:]
         rnd.shuffle(order)
         deps = {m: [] for m in nodes}
@@ -171,7 +176,9 @@ class ModProfile:
                 if not viol:
                     for m in sorted(clo):
                         for d in deps[m]:
-                            if not pos[("ctor-end", d)] < pos[("dep-return", m, d)]:
+                            if ("dep-return", m, d) not in pos:
+                                viol.append(Violation(("C20",), "ctor-order", "%s declared a dependency on %s but its module_depends() call was never seen to return" % (m, d)))
+                            elif not pos[("ctor-end", d)] < pos[("dep-return", m, d)]:
                                 viol.append(Violation(("C20",), "ctor-order", "%s was still constructing when %s's module_depends(%s) returned" % (d, m, d)))
                         # transitively: a module without the hook in between does not break the chain
                         for d in sorted(closure(deps[m], deps) - {m}):
